@@ -279,6 +279,13 @@ def deps_of(spec, t):
     elif k == "uref":
         d = list(ty["members"])
     d += [b for a, b in spec.get("depends", []) if a == t]
+    if k == "array" and ty.get("base") is not None and not any(a == t for a, b in spec.get("depends", [])):
+        # a named array derived from an array class inherits that class's `_depends_on` (a plain class
+        # attribute for arrays; struct classes get a list of their own from their metaclass)
+        b0 = ty["base"]
+        while b0 is not None:
+            d += [b for a, b in spec.get("depends", []) if a == b0]
+            b0 = spec["schema"][b0].get("base")
     return d
 
 
